@@ -271,7 +271,10 @@ def run(run_, ctx):
     run_.floor("E", 49)
     run_.floor("S", 49)
     # ---- H ---------------------------------------------------------------------------------------------------------
-    fmax = [f for f in pc.fns if f.def_ == "max_size::max"]
+    # helpers are found by name and signature wherever in the crate they live
+    free = lambda f: not f.impl_self and "{closure" not in f.canon
+    usz = lambda f, n: f.argc == n and all(f.locals[i]["ty"] == "usize" for i in range(0, n + 1))
+    fmax = [f for f in pc.fns if f.name == "max" and free(f) and usz(f, 2)]
     if len(fmax) == 1:
         ls = sorted(summ.lines(summ.summarize(F, fmax[0])))
         okm = ls in (["if arg1 <= arg2: - => arg2", "if arg2 < arg1: - => arg1"],
@@ -281,7 +284,7 @@ def run(run_, ctx):
         run_.bad("H", "max", "a size constant calls a helper `max` that was not found")
     else:
         run_.ok("H", "max", "no `max` helper in use (maxima are computed in place and read back from the constants' MIR)")
-    fvs = [f for f in pc.fns if f.def_ == "max_size::varint_size"]
+    fvs = [f for f in pc.fns if f.name == "varint_size" and free(f) and usz(f, 1)]
     if len(fvs) == 1:
         f = fvs[0]
         bad = []
@@ -315,7 +318,7 @@ def run(run_, ctx):
         run_.check(not bad, "H", "varint_size", bad[0] if bad else "= vlen(n) for n = 0 and every bit length 1..64 (%d folded evaluations)" % len(cases), f.where(), found=bad[:3])
     else:
         run_.bad("H", "varint_size", "helper not found")
-    fvm = [f for f in pc.fns if f.def_ == "varint::varint_max"]
+    fvm = [f for f in pc.fns if f.name == "varint_max" and free(f) and usz(f, 0)]
     if len(fvm) == 1:
         f = fvm[0]
         bad = []
